@@ -23,6 +23,9 @@ KNOWN = os.path.join(ROOT, "known_findings.json")
 
 
 def _job(prop, modname, jobname, fname, kwargs, tier, seed):
+    import warnings
+
+    warnings.filterwarnings("ignore")
     from symexec.engine import Prover
 
     t0 = time.time()
